@@ -34,10 +34,12 @@ class Prop(common.PropertyCheck):
                              'nonneg': rng.choice([True, False, 'zero']), 'scatter_out': rng.random() < 0.5,
                              'time_order': rng.choice(['sorted', 'wrap', 'random'])})
             dt = rng.choice(['I', 'I', 'F', 'D'])
+            rewrite = False
             if i % 3 == 0:
                 # integer file whose time channel is a wrapping counter (first/last events are those of the event list, not of the clock)
                 dt = 'I'
                 rows[0].update({'iid': 'FC001', 'time_order': rng.choice(['wrap', 'random'])})
+                rewrite = True
             elif i % 3 == 1:
                 # double-precision file with events outside the declared range (no saturation gate for floating-point data)
                 dt = 'D'
@@ -53,7 +55,7 @@ class Prop(common.PropertyCheck):
                 rows[-1].update({'gf': rng.choice([1.0, 1]), 'scatter_out': True, 'nonneg': 'zero'})
                 rows[-1]['units'][1] = rng.choice(['a.u.', 'RFI', 'Channel'])
             yield {'seed': rng.randrange(1 << 30), 'datatype': dt, 'ninst': ninst,
-                   'scatter_gain': rng.choice([None, None, 2, 0.5]), 'rows': rows}
+                   'scatter_gain': rng.choice([None, None, 2, 0.5]), 'rows': rows, 'rewrite': rewrite}
 
     def run_impl(self, case):
         ex = excelgen.Experiment(case['seed'], datatype=case['datatype'], instruments=case['ninst'], scatter_gain=case['scatter_gain'])
@@ -102,93 +104,107 @@ class Prop(common.PropertyCheck):
                 beads_table = excelgen.table([excelgen.beads_row('B1', 'FC001', 'beads1.fcs', channels=()), excelgen.beads_row('B2', 'FC001', 'beads1.fcs', channels=())])
                 bs, fx, mo = FlowCal.excel_ui.process_beads_table(beads_table, inst, base_dir=ex.dir, full_output=True)
             FlowCal.excel_ui.add_beads_stats(beads_table, bs, mo)
-            res = FlowCal.excel_ui.process_samples_table(samples_table, inst, mef_transform_fxns=fx, beads_table=beads_table, base_dir=ex.dir)
-            FlowCal.excel_ui.add_samples_stats(samples_table, res)
-            hist = FlowCal.excel_ui.generate_histograms_table(samples_table, res)
-        out = {'rows': []}
-        for j, f in enumerate(facts):
-            sid = 'S%d' % j
-            d = ex.inst[f['iid']]
-            got = res[sid]
-            rowout = {'sid': sid, 'facts': {'fsc': d['fsc'], 'ssc': d['ssc'], 'fl': d['fl'], 'units': [[c, f['units'][c]] for c in d['fl']],
-                                            'integer': case['datatype'] == 'I'}}
-            if isinstance(got, Exception):
-                rowout['err'] = str(got)
-                out['rows'].append(rowout)
-                continue
-            # ---- the documented steps, by hand
-            steps = []
+        def analyse():
             with warnings.catch_warnings():
                 warnings.simplefilter('ignore')
-                s = FlowCal.io.FCSData(ex.dir + '/' + f['file'])
-                sc = [d['fsc'], d['ssc']]
-                s = FlowCal.transform.to_rfi(s, sc); steps.append(['to_rfi', sc])
-                report = []
-                for c in d['fl']:
-                    u = f['units'][c]
-                    if u is None:
-                        continue
-                    ul = u.strip().lower()
-                    if ul in ('rfi', 'a.u.', 'au'):
-                        s = FlowCal.transform.to_rfi(s, c); steps.append(['to_rfi', [c]])
-                    elif ul == 'mef':
-                        s = FlowCal.transform.to_rfi(s, c); steps.append(['to_rfi', [c]])
-                        s = fx['B1' if f['iid'] == 'FC001' else 'B2'](s, c); steps.append(['to_mef', c])
-                    report.append(c)
-                g = FlowCal.gate.start_end(s, num_start=250, num_end=100); steps.append(['start_end', 250, 100])
-                if case['datatype'] == 'I':
-                    g = FlowCal.gate.high_low(g, sc + report); steps.append(['high_low', sc + report])
-                g = FlowCal.gate.density2d(g, channels=sc, gate_fraction=f['gf'], xscale='logicle', yscale='logicle'); steps.append(['density2d', sc])
-            rowout['steps'] = steps
-            fa, fb = fpm.sample_fp(got), fpm.sample_fp(g)
-            rowout['same_sample'] = (fa['array'] == fb['array'] and fa['state'] == fb['state'])
-            if not rowout['same_sample']:
-                rowout['diff'] = [x[0] for x, y in zip(fa['state'], fb['state']) if x != y] or ['events %s vs %s' % (fa['array']['shape'], fb['array']['shape'])]
-            # ---- statistics columns
-            probs = []
-            tr = samples_table.loc[sid]
-            if int(tr['Number of Events']) != g.shape[0]:
-                probs.append('Number of Events %s vs %d' % (tr['Number of Events'], g.shape[0]))
-            at = g.acquisition_time
-            if not (abs(float(tr['Acquisition Time (s)']) - at) <= 1e-9 * max(1, abs(at))):
-                probs.append('Acquisition Time %s vs %s' % (tr['Acquisition Time (s)'], at))
-            note = str(tr['Analysis Notes'])
-            for c in report:
-                col = np.asarray(g[:, c])
-                pos = g[np.asarray(g[:, c]) > 0] if np.any(col <= 0) else g
-                if np.any(col <= 0) and ('Geometric statistics for channel %s calculated on positive events' % c) not in note:
-                    probs.append('no note about positive-only geometric statistics for %s' % c)
+                res = FlowCal.excel_ui.process_samples_table(samples_table, inst, mef_transform_fxns=fx, beads_table=beads_table, base_dir=ex.dir)
+                FlowCal.excel_ui.add_samples_stats(samples_table, res)
+                hist = FlowCal.excel_ui.generate_histograms_table(samples_table, res)
+            out = {'rows': []}
+            for j, f in enumerate(facts):
+                sid = 'S%d' % j
+                d = ex.inst[f['iid']]
+                got = res[sid]
+                rowout = {'sid': sid, 'facts': {'fsc': d['fsc'], 'ssc': d['ssc'], 'fl': d['fl'], 'units': [[c, f['units'][c]] for c in d['fl']],
+                                                'integer': case['datatype'] == 'I'}}
+                if isinstance(got, Exception):
+                    rowout['err'] = str(got)
+                    out['rows'].append(rowout)
+                    continue
+                # ---- the documented steps, by hand
+                steps = []
                 with warnings.catch_warnings():
                     warnings.simplefilter('ignore')
-                    want = {' Mean': FlowCal.stats.mean(g, c), ' Median': FlowCal.stats.median(g, c), ' Mode': FlowCal.stats.mode(g, c),
-                            ' Std': FlowCal.stats.std(g, c), ' CV': FlowCal.stats.cv(g, c), ' IQR': FlowCal.stats.iqr(g, c), ' RCV': FlowCal.stats.rcv(g, c),
-                            ' Geom. Mean': FlowCal.stats.gmean(pos, c), ' Geom. Std': FlowCal.stats.gstd(pos, c), ' Geom. CV': FlowCal.stats.gcv(pos, c)}
-                for k, w in want.items():
-                    v = float(tr[c + k]); w = float(w)
-                    if not (v == w or (np.isnan(v) and np.isnan(w)) or abs(v - w) <= 1e-12 * abs(w)):
-                        probs.append('%s%s = %r, library statistic of the gated sample = %r' % (c, k, v, w))
-                # ---- histogram rows
-                unit = f['units'][c]
-                scale = 'linear' if unit == 'Channel' else 'logicle'
-                nb = min(g.resolution(c), 1024)
-                be = g.hist_bins(c, 2 * nb, scale)
-                edges = be[::2]
-                cnt, _ = np.histogram(col, bins=edges)
-                try:
-                    hrow = hist.loc[(sid, c, 'Counts')]
-                    hv = np.asarray(hrow.values[:len(cnt)], dtype=float)
-                    if not np.array_equal(hv, cnt.astype(float)):
-                        probs.append('histogram counts of %s differ from the histogram over the library bin edges' % c)
-                    inside = int(np.sum((col >= edges[0]) & (col <= edges[-1])))
-                    if int(np.nansum(hv)) != inside:
-                        probs.append('histogram counts of %s sum to %d, %d events lie within the edges' % (c, int(np.nansum(hv)), inside))
-                    centers = np.asarray(hist.loc[(sid, c, 'Bin Centers (%s)' % unit)].values[:len(cnt)], dtype=float)
-                    if not np.array_equal(centers, np.asarray(be[1::2], dtype=float)):
-                        probs.append('histogram bin centres of %s differ from the library bin centres' % c)
-                except KeyError:
-                    probs.append('no histogram row for %s %s' % (sid, c))
-            rowout['problems'] = probs
-            out['rows'].append(rowout)
+                    s = FlowCal.io.FCSData(ex.dir + '/' + f['file'])
+                    sc = [d['fsc'], d['ssc']]
+                    s = FlowCal.transform.to_rfi(s, sc); steps.append(['to_rfi', sc])
+                    report = []
+                    for c in d['fl']:
+                        u = f['units'][c]
+                        if u is None:
+                            continue
+                        ul = u.strip().lower()
+                        if ul in ('rfi', 'a.u.', 'au'):
+                            s = FlowCal.transform.to_rfi(s, c); steps.append(['to_rfi', [c]])
+                        elif ul == 'mef':
+                            s = FlowCal.transform.to_rfi(s, c); steps.append(['to_rfi', [c]])
+                            s = fx['B1' if f['iid'] == 'FC001' else 'B2'](s, c); steps.append(['to_mef', c])
+                        report.append(c)
+                    g = FlowCal.gate.start_end(s, num_start=250, num_end=100); steps.append(['start_end', 250, 100])
+                    if case['datatype'] == 'I':
+                        g = FlowCal.gate.high_low(g, sc + report); steps.append(['high_low', sc + report])
+                    g = FlowCal.gate.density2d(g, channels=sc, gate_fraction=f['gf'], xscale='logicle', yscale='logicle'); steps.append(['density2d', sc])
+                rowout['steps'] = steps
+                fa, fb = fpm.sample_fp(got), fpm.sample_fp(g)
+                rowout['same_sample'] = (fa['array'] == fb['array'] and fa['state'] == fb['state'])
+                if not rowout['same_sample']:
+                    rowout['diff'] = [x[0] for x, y in zip(fa['state'], fb['state']) if x != y] or ['events %s vs %s' % (fa['array']['shape'], fb['array']['shape'])]
+                # ---- statistics columns
+                probs = []
+                tr = samples_table.loc[sid]
+                if int(tr['Number of Events']) != g.shape[0]:
+                    probs.append('Number of Events %s vs %d' % (tr['Number of Events'], g.shape[0]))
+                at = g.acquisition_time
+                if not (abs(float(tr['Acquisition Time (s)']) - at) <= 1e-9 * max(1, abs(at))):
+                    probs.append('Acquisition Time %s vs %s' % (tr['Acquisition Time (s)'], at))
+                note = str(tr['Analysis Notes'])
+                for c in report:
+                    col = np.asarray(g[:, c])
+                    pos = g[np.asarray(g[:, c]) > 0] if np.any(col <= 0) else g
+                    if np.any(col <= 0) and ('Geometric statistics for channel %s calculated on positive events' % c) not in note:
+                        probs.append('no note about positive-only geometric statistics for %s' % c)
+                    with warnings.catch_warnings():
+                        warnings.simplefilter('ignore')
+                        want = {' Mean': FlowCal.stats.mean(g, c), ' Median': FlowCal.stats.median(g, c), ' Mode': FlowCal.stats.mode(g, c),
+                                ' Std': FlowCal.stats.std(g, c), ' CV': FlowCal.stats.cv(g, c), ' IQR': FlowCal.stats.iqr(g, c), ' RCV': FlowCal.stats.rcv(g, c),
+                                ' Geom. Mean': FlowCal.stats.gmean(pos, c), ' Geom. Std': FlowCal.stats.gstd(pos, c), ' Geom. CV': FlowCal.stats.gcv(pos, c)}
+                    for k, w in want.items():
+                        v = float(tr[c + k]); w = float(w)
+                        if not (v == w or (np.isnan(v) and np.isnan(w)) or abs(v - w) <= 1e-12 * abs(w)):
+                            probs.append('%s%s = %r, library statistic of the gated sample = %r' % (c, k, v, w))
+                    # ---- histogram rows
+                    unit = f['units'][c]
+                    scale = 'linear' if unit == 'Channel' else 'logicle'
+                    nb = min(g.resolution(c), 1024)
+                    be = g.hist_bins(c, 2 * nb, scale)
+                    edges = be[::2]
+                    cnt, _ = np.histogram(col, bins=edges)
+                    try:
+                        hrow = hist.loc[(sid, c, 'Counts')]
+                        hv = np.asarray(hrow.values[:len(cnt)], dtype=float)
+                        if not np.array_equal(hv, cnt.astype(float)):
+                            probs.append('histogram counts of %s differ from the histogram over the library bin edges' % c)
+                        inside = int(np.sum((col >= edges[0]) & (col <= edges[-1])))
+                        if int(np.nansum(hv)) != inside:
+                            probs.append('histogram counts of %s sum to %d, %d events lie within the edges' % (c, int(np.nansum(hv)), inside))
+                        centers = np.asarray(hist.loc[(sid, c, 'Bin Centers (%s)' % unit)].values[:len(cnt)], dtype=float)
+                        if not np.array_equal(centers, np.asarray(be[1::2], dtype=float)):
+                            probs.append('histogram bin centres of %s differ from the library bin centres' % c)
+                    except KeyError:
+                        probs.append('no histogram row for %s %s' % (sid, c))
+                rowout['problems'] = probs
+                out['rows'].append(rowout)
+            return out
+        out = analyse()
+        if case.get('rewrite'):
+            # the first sample file is replaced by another acquisition of the same size at the same path; the analysis is run again in this process
+            f0 = facts[0]
+            ex.write_fcs(f0['file'], f0['iid'], n=700, voltage=450, seed=case['seed'] % 1000 + 777, nonneg=case['rows'][0]['nonneg'],
+                         scatter_out=case['rows'][0].get('scatter_out', False), time_order=case['rows'][0].get('time_order', 'sorted'))
+            out2 = analyse()
+            for r in out2['rows']:
+                r['sid'] = r['sid'] + ' (second analysis, after the file at the same path was replaced)'
+            out['rows'] += out2['rows']
         return out
 
     def oracle(self, case, impl):
